@@ -51,9 +51,9 @@ SPECS = {
                 rule_text="non-trivial: an authorizer table was installed and routed traffic (an INVOCATION and a reply) occurred"),
     "C11": dict(profiles=["realms"], owned=None, monitors=set(), sizes=True, rule="events>=2",
                 rule_text="non-trivial: 2-4 realms ran the same kind of traffic and at least two EVENTs were delivered"),
-    "C12": dict(profiles=["pubsub", "rpc"], owned={EVENT, INVOCATION, E(16), E(48), RESULT}, monitors={"C12"}, sizes=False, rule="disclosure",
+    "C12": dict(profiles=["pubsub", "rpc"], owned={EVENT, INVOCATION, E(16), E(48), RESULT}, monitors={"C12"}, sizes=False, rule="disclosure", own_opts={"disclose_caller", "disclose_me"},
                 rule_text="non-trivial: a publication or call asked for identity disclosure (disclose_me / disclose_caller)"),
-    "C18": dict(profiles=["meta"], owned=None, monitors=set(), sizes=True, rule="meta-api",
+    "C18": dict(profiles=["meta", "history"], owned=None, monitors=set(), sizes=True, rule="meta-api",
                 rule_text="non-trivial: the history used session kill / testament / modify_details meta procedures besides the read-only ones"),
     "C20": dict(profiles=["history"], owned=None, monitors=set(), sizes=False, rule="history-filter",
                 rule_text="non-trivial: a get_events query with a publication or time bound ran against a non-empty history"),
@@ -63,6 +63,22 @@ TIERS = {
     "quick": dict(count=400, max_ops=50, max_sess=7, seeds=1, kernel_cases=12),
     "thorough": dict(count=2500, max_ops=90, max_sess=10, seeds=3, kernel_cases=100),
 }
+
+
+def _op_owned(spec, failure, mm):
+    """A disagreement on the reply to a request is also the property's when the
+    request itself carries an option the property is about (spec['own_opts']):
+    e.g. for C12 a REGISTER with disclose_caller that is accepted or refused
+    differently from the model."""
+    keys = spec.get("own_opts")
+    if not keys:
+        return False
+    try:
+        op = failure["scenario"]["ops"][mm["op_index"]]
+        opts = (op.get("m") or {}).get("opts") or []
+        return any(isinstance(kv, list) and kv and kv[0] in keys for kv in opts[1:])
+    except Exception:
+        return False
 
 
 def run_batch(binp, model, profile, seed, count, max_ops, max_sess, corpus, check_sizes, out, transcripts=0):
@@ -77,14 +93,26 @@ def run_batch(binp, model, profile, seed, count, max_ops, max_sess, corpus, chec
         # the harness process died: a panic in a router goroutine.  Replay the
         # scenarios that were running, one process each, to find the culprit.
         crashed = []
-        for f in sorted(glob.glob(out + ".running.*")):
+        marks = sorted(glob.glob(out + ".running.*"))
+        if os.path.exists(out + ".stuck"):
+            # the harness's watchdog named the scenario(s) that did not finish
+            named = [m for m in open(out + ".stuck").read().split() if os.path.exists(m)]
+            marks = named or marks
+            os.remove(out + ".stuck")
+        for f in marks:
             e2 = common.go_env()
             e2["DRIVE_REPLAY"] = f
             e2["DRIVE_MODEL"] = model
             rc2, out2 = common.run([binp, "-test.run", "TestReplay", "-test.timeout", "120s"], env=e2, timeout=200)
-            if rc2 != 0 and ("panic:" in out2 or "fatal error:" in out2):
+            if rc2 != 0 and ("panic:" in out2 or "fatal error:" in out2 or rc2 == 124):
                 lines = [l for l in out2.splitlines() if l.startswith(("panic:", "fatal error:"))]
-                crashed.append(dict(scenario=json.load(open(f)), panic=(lines or ["panic"])[0], trace=out2[-2500:]))
+                what = (lines or ["panic"])[0]
+                if "test timed out" in what or rc2 == 124:
+                    # the history never reaches quiescence: a router goroutine
+                    # spins (or waits on a lock, which synctest does not count as blocked)
+                    m = [l for l in out2.splitlines() if "nexus/v3/router." in l]
+                    what = "hang: history does not finish (router goroutine busy or waiting on a lock)" + (" @ " + m[0].strip().split("(")[0] if m else "")
+                crashed.append(dict(scenario=json.load(open(f)), panic=what, trace=out2[-2500:]))
         return dict(crashed=crashed, stats=None), log
     return json.load(open(out)), log
 
@@ -175,7 +203,7 @@ def main(pid, tier, replay_path=None):
                 out = os.path.join(common.build_dir("runs"), "%s-%s-%d.json" % (pid, profile, si))
                 if os.path.exists(out):
                     os.remove(out)
-                res, log = run_batch(binp, model, profile, common.seed() * 1000 + si, tcfg["count"] // len(spec["profiles"]),
+                res, log = run_batch(binp, model, profile, common.seed() * 1000 + si, tcfg["count"] if len(spec["profiles"]) == 1 else int(tcfg["count"] * 0.7),
                                      tcfg["max_ops"], tcfg["max_sess"], corpus if si == 0 else [], spec["sizes"], out,
                                      transcripts=tcfg["kernel_cases"] if si == 0 else 0)
                 if res is not None and res.get("transcripts"):
@@ -213,7 +241,7 @@ def main(pid, tier, replay_path=None):
                                 mine.append(("sizes", "table sizes differ from the model after op %d: %s" % (mm["op_index"], mm["detail"][:300])))
                         elif mm["what"] == "model-error":
                             broken.append(dict(kind="model-error", detail=mm["detail"][:500]))
-                        elif spec["owned"] is None or (codes & spec["owned"]) or not codes:
+                        elif spec["owned"] is None or (codes & spec["owned"]) or not codes or _op_owned(spec, f, mm):
                             mine.append(("mismatch:%s" % ",".join(str(c) for c in sorted(codes)),
                                          "router and model disagree at op %d: %s" % (mm["op_index"], mm["detail"][:600])))
                         else:
